@@ -32,7 +32,10 @@ def configs(tier):
           dict(width=16, endian="big", gap=3, ready=1, bulk=0),
           dict(width=24, endian="big", gap=1, ready=1, bulk=1),
           dict(width=24, endian="little", gap=2, ready=3, bulk=0)]
-    if tier == "thorough":
+    if tier == "quick":
+        for c in cs:
+            if c["bulk"]: c["depth"] = 6          # configurations without the bulk endpoint run to the fixed point
+    else:
         cs += [dict(width=9, endian="little", gap=4, ready=1, bulk=1, pace=2),
                dict(width=8, endian="little", gap=1, ready=4, bulk=1),
                dict(width=17, endian="big", gap=2, ready=2, bulk=1),
@@ -51,11 +54,12 @@ class SignalSpec(Spec):
         self.nbytes = (self.w + 7) // 8
         self.big = cfg["endian"] == "big"
         self.bulk = bool(cfg.get("bulk"))
-        self.time_budget = 60 if tier == "quick" else 800
+        self.time_budget = 240 if tier == "quick" else 850      # wall-clock safety net only; bounds are set by depth / fixed point
+        if cfg.get("depth"): self.max_depth = cfg["depth"]
         self.host = Host(gap=cfg["gap"], pace=cfg.get("pace", 1), ready_period=cfg["ready"])
         m = (1 << self.w) - 1
         self.vals = (VA & m, VB & m)
-        flips = [None, ("t", 1), ("t", 5), ("t", 9), ("s",), ("m",)]
+        flips = [None, ("t", 1), ("t", 5), ("s",), ("m",)] + ([("t", 9)] if tier == "thorough" else [])
         self._acts = [("in1", ack, f) for ack in (1, 0) for f in flips] + [("flip",), ("sof",), ("out1",), ("foreign",), ("in3",)]
         if self.bulk: self._acts += [("in2", 1), ("in2", 0)]
 
@@ -82,14 +86,18 @@ class SignalSpec(Spec):
             "a signal change inside the turn-around window between token and response may be reported as either value",
             "no bus reset and no SET_CONFIGURATION / CLEAR_FEATURE (which would restart the toggle); device address stays 0"]
 
-    # env = (sig, tog, pend): sig = index of the signal's current value, tog = reference toggle of the next new packet,
-    # pend = index of the value carried by a transmitted but not (yet) acknowledged packet, or None
-    def env0(self): return (0, 0, None)
+    # env = (sig, tog, pend, since)
+    #   sig  = index of the signal's current value,  tog = reference toggle of the next packet,
+    #   pend = index of the value carried by a transmitted but not (yet) acknowledged packet, or None,
+    #   since = what the bus carried since that packet: "" nothing | "token" a token addressed to this device |
+    #           "bulk-ack" the host's ACK of another endpoint's data | "foreign-ack" the host's ACK of another device's data | "sof"
+    #           (only used to name cover goals and to make violation signatures specific; the rightmost of this list that occurred)
+    def env0(self): return (0, 0, None, "")
     def actions(self, env): return self._acts
 
     def goals(self):
-        g = ["poll:acked", "poll:not-acked", "retry:after-signal-change", "retry:after-foreign-ack", "retry:after-other-token", "flip:turnaround",
-             "flip:at-start", "flip:mid", "toggle:data1", "value:A", "value:B"]
+        g = ["poll:acked", "poll:not-acked", "retry:after-signal-change", "retry:after-foreign-ack", "retry:after-token", "retry:after-sof",
+             "retry:immediately", "flip:turnaround", "flip:at-start", "flip:mid", "toggle:data1", "value:A", "value:B"]
         if self.bulk: g.append("retry:after-bulk-ack")
         return g
 
@@ -100,8 +108,7 @@ class SignalSpec(Spec):
 
     def apply(self, cur, env, a):
         host = self.host
-        sig = env[0]
-        extra = dict(connect=1, signal=self.vals[sig])
+        extra = dict(connect=1, signal=self.vals[env[0]])
         host.extra = extra
         try:
             try:
@@ -117,31 +124,101 @@ class SignalSpec(Spec):
             raise Violation("answers-unrelated-traffic:" + what, dict(resp=resp))
 
     def _do(self, cur, env, a, extra):
-        sig, tog, pend = env
+        sig, tog, pend, since = env
         host = self.host
+        order = ("", "token", "sof", "bulk-ack", "foreign-ack")
+        mark = lambda what: "" if pend is None else max(since, what, key=order.index)
+        strobes = [0]
+        def count_strobe(o):
+            if o.read_complete: strobes[0] += 1
+        host.on_cycle = count_strobe
         if a[0] == "flip":
-            return (sig ^ 1, tog, pend)
-        if a[0] != "in1":
-            if a[0] == "sof":
-                host.send(cur, U.sof(0x2A5), False)
-                return env
-            if a[0] == "in2":
-                resp = host.send(cur, U.token(U.IN, 0, 2), True)
-                kind = U.classify_device_packet(resp) if resp is not None else None
-                if kind is not None and kind[0] == "data" and a[1]:
-                    host.send(cur, U.handshake(U.ACK), False)
-                    return (sig, tog, pend, )[:2] + ((pend, "bulk-ack") if pend is not None and not isinstance(pend, tuple) else pend,)
-            elif a[0] == "in3":
-                self._silent(host.send(cur, U.token(U.IN, 0, 3), True), "in-to-absent-endpoint")
-            elif a[0] == "foreign":
-                self._silent(host.send(cur, U.token(U.IN, FOREIGN, 1), True), "in-to-other-address")
+            return (sig ^ 1, tog, pend, since)
+        if a[0] == "sof":
+            host.send(cur, U.sof(0x2A5), False)
+            return (sig, tog, pend, mark("sof"))
+        if a[0] == "in2":
+            resp = host.send(cur, U.token(U.IN, 0, 2), True)
+            kind = U.classify_device_packet(resp) if resp is not None else None
+            if kind is not None and kind[0] == "data" and a[1]:
                 host.send(cur, U.handshake(U.ACK), False)
-                return (sig, tog, (pend, "foreign-ack") if pend is not None and not isinstance(pend, tuple) else pend)
-            elif a[0] == "out1":
-                host.send(cur, U.token(U.OUT, 0, 1), False)
-                self._silent(host.send(cur, U.data_packet(U.DATA0, (0x77,)), True), "out-to-in-endpoint")
-            return (sig, tog, (pend, "other-token") if pend is not None and not isinstance(pend, tuple) else pend)
-        raise AssertionError
+                return (sig, tog, pend, mark("bulk-ack"))
+            return (sig, tog, pend, mark("token"))
+        if a[0] == "in3":
+            self._silent(host.send(cur, U.token(U.IN, 0, 3), True), "in-to-absent-endpoint")
+            return (sig, tog, pend, mark("token"))
+        if a[0] == "foreign":
+            self._silent(host.send(cur, U.token(U.IN, FOREIGN, 1), True), "in-to-other-address")
+            host.send(cur, U.handshake(U.ACK), False)
+            return (sig, tog, pend, mark("foreign-ack"))
+        if a[0] == "out1":
+            host.send(cur, U.token(U.OUT, 0, 1), False)
+            self._silent(host.send(cur, U.data_packet(U.DATA0, (0x77,)), True), "out-to-in-endpoint")
+            return (sig, tog, pend, mark("token"))
+        # ---- poll of the signal endpoint
+        _, ack, flip = a
+        pkt = U.token(U.IN, 0, 1)
+        t_end = 1 + len(pkt) * host.pace + (host.pace - 1)      # cycles Host.send spends on the token itself
+        st = dict(n=0, started=None, accepted=0, flipped_at=None)
+        def on_cycle(o):
+            st["n"] += 1
+            if o.tx_valid and st["started"] is None: st["started"] = st["n"]
+            if st["flipped_at"] is None and flip is not None:
+                do = False
+                if flip[0] == "t": do = st["n"] == t_end + flip[1]
+                elif flip[0] == "s": do = st["started"] is not None
+                elif flip[0] == "m": do = st["started"] is not None and st["n"] >= st["started"] + 1 + host.ready_period
+                if do:
+                    st["flipped_at"] = st["n"] + 1                 # first cycle that shows the new value
+                    extra["signal"] = self.vals[sig ^ 1]
+        host.on_cycle = on_cycle
+        resp = host.send(cur, pkt, True)
+        host.on_cycle = count_strobe
+        flipped = st["flipped_at"] is not None
+        sig2 = sig ^ 1 if flipped else sig
+        ctx = dict(env=env, action=a, resp=resp, response_started_at_cycle=st["started"], signal_changed_at_cycle=st["flipped_at"])
+        if resp is None: raise Violation("poll:no-response", ctx)
+        kind = U.classify_device_packet(resp)
+        if kind[0] != "data": raise Violation("poll:response-is-not-a-valid-data-packet", dict(ctx, kind=kind))
+        _, pid, payload = kind
+        suffix = (":after-" + since) if since else ""
+        if pid not in (U.DATA0, U.DATA1) or pid != (U.DATA1 if tog else U.DATA0):
+            if pend is not None:
+                raise Violation("retry:toggle-differs-from-unacknowledged-packet" + suffix, dict(ctx, pid=U.PIDNAME[pid]))
+            raise Violation("toggle:new-poll-does-not-use-the-toggle-following-the-last-ack", dict(ctx, pid=U.PIDNAME[pid], expected_toggle=tog))
+        if len(payload) != self.nbytes:
+            raise Violation("value:wrong-length", dict(ctx, expected=self.nbytes))
+        if pend is not None:
+            if payload != self._bytes(pend):
+                raise Violation("retry:value-differs-from-unacknowledged-packet" + suffix, dict(ctx, expected=self._bytes(pend), got=payload))
+            sent = pend
+            self.cover["retry:" + ("after-" + since if since else "immediately")] += 1
+            if sig != pend or flipped: self.cover["retry:after-signal-change"] += 1
+        else:
+            # admissible samples: the value the signal had from the end of the token until the response started
+            adm = {sig}
+            if flipped and st["flipped_at"] <= st["started"]:
+                adm.add(sig ^ 1); self.cover["flip:turnaround"] += 1
+            elif flipped:
+                self.cover["flip:at-start" if flip[0] == "s" else ("flip:mid" if flip[0] == "m" else "flip:turnaround-late")] += 1
+            hit = [i for i in sorted(adm) if payload == self._bytes(i)]
+            if not hit:
+                rev = [i for i in sorted(adm) if self.nbytes > 1 and payload == tuple(reversed(self._bytes(i)))]
+                if rev: raise Violation("value:wrong-byte-order", dict(ctx, expected=[self._bytes(i) for i in sorted(adm)], got=payload))
+                if payload == self._bytes(sig ^ 1):
+                    raise Violation("value:not-sampled-at-the-request", dict(ctx, expected=[self._bytes(i) for i in sorted(adm)], got=payload))
+                raise Violation("value:not-a-value-of-the-signal", dict(ctx, expected=[self._bytes(i) for i in sorted(adm)], got=payload))
+            sent = hit[0]
+        self.cover["value:" + "AB"[sent]] += 1
+        if pid == U.DATA1: self.cover["toggle:data1"] += 1
+        self.outcomes.add((U.PIDNAME[pid], sent, pend is not None, flip, ack))
+        if strobes[0]: self.cover["note:status_read_complete-before-ack"] += 1      # not demanded by the statement; recorded only
+        if not ack:
+            self.cover["poll:not-acked"] += 1
+            return (sig2, tog, sent, "")
+        host.send(cur, U.handshake(U.ACK), False)
+        self.cover["poll:acked"] += 1
+        return (sig2, tog ^ 1, None, "")
 
 
 def make(cfg, tier):
